@@ -82,12 +82,17 @@ enum Method {
 /// one flush (or, with calls == 1, a single send): reports the transport write calls.
 fn run_batch(case: &Value) -> Value {
     use zlink_core::Call;
-    let calls = case["calls"].as_u64().unwrap() as usize;
-    let size = case["size"].as_u64().unwrap() as usize;
+    // either `calls` x `size`, or an explicit list of payload sizes
+    let sizes: Vec<usize> = match case.get("sizes").and_then(|s| s.as_array()) {
+        Some(a) => a.iter().map(|x| x.as_u64().unwrap() as usize).collect(),
+        None => vec![case["size"].as_u64().unwrap() as usize; case["calls"].as_u64().unwrap() as usize],
+    };
+    // `then`: a further small call sent after the flush (what a later send puts on the wire)
+    let then = case.get("then").and_then(|t| t.as_bool()).unwrap_or(false);
     let (sock, sh) = zv::SSocket::new(Default::default());
     let mut conn = Connection::new(sock);
     let mut expected: Vec<u8> = Vec::new();
-    for i in 0..calls {
+    for (i, size) in sizes.iter().copied().enumerate() {
         let c = Call::new(Method::Put { name: "x".repeat(size), value: i as u64 });
         expected.extend(serde_json::to_vec(&c).unwrap());
         expected.push(0);
@@ -104,10 +109,27 @@ fn run_batch(case: &Value) -> Value {
             Poll::Pending => "pending".to_string(),
         }
     };
+    let mut then_ok = Value::Null;
+    let first_n = sh.borrow().writes.len();
+    if then && res == "ok" {
+        let before = first_n;
+        let c = Call::new(Method::Put { name: "t".into(), value: 7 });
+        let mut want = serde_json::to_vec(&c).unwrap();
+        want.push(0);
+        let r = {
+            let fut = conn.send_call(&c);
+            let mut fut = std::pin::pin!(fut);
+            matches!(poll_once(fut.as_mut()), Poll::Ready(Ok(())))
+        };
+        let s = sh.borrow();
+        let after: Vec<u8> = s.writes[before..].iter().flatten().copied().collect();
+        then_ok = json!(r && after == want && s.writes.len() == before + 1);
+    }
     let s = sh.borrow();
-    let total: Vec<u8> = s.writes.iter().flatten().copied().collect();
-    json!({"id": case["id"], "res": res, "writes": s.writes.len(), "bytes": total.len(),
-           "expected_bytes": expected.len(), "content_ok": total == expected,
+    let first_writes = &s.writes[..first_n];
+    let total: Vec<u8> = first_writes.iter().flatten().copied().collect();
+    json!({"id": case["id"], "res": res, "writes": first_writes.len(), "bytes": total.len(),
+           "expected_bytes": expected.len(), "content_ok": total == expected, "then_ok": then_ok,
            "write_sizes": s.writes.iter().map(|w| w.len()).collect::<Vec<_>>()})
 }
 
